@@ -416,7 +416,8 @@ func (s *Session) onPreprocess(resp *rtsp.Response, req *rtsp.Request) (continue
 			req.Method == rtsp.MethodPause)
 	default:
 		continueProcess = !(req.Method == rtsp.MethodPlay ||
-			req.Method == rtsp.MethodRecord)
+			req.Method == rtsp.MethodRecord ||
+			req.Method == rtsp.MethodPause) // 初始状态下 PAUSE 与 PLAY 一样不合法
 	}
 
 	if !continueProcess {
